@@ -322,6 +322,15 @@ func (enc *encryptInfo) AsDict(version Version) (Dict, error) {
 		dict["CF"] = Dict{
 			"StdCF": Dict{"Length": Integer(128), "CFM": Name("AESV2")},
 		}
+	} else if cipher == cipherRC4 && length == 128 && version >= V1_5 {
+		// PDF 1.5 has crypt filters: RC4 as the /V2 method of the standard
+		// crypt filter, so that streams can name /Crypt /Identity
+		dict["V"] = Integer(4)
+		dict["StmF"] = Name("StdCF")
+		dict["StrF"] = Name("StdCF")
+		dict["CF"] = Dict{
+			"StdCF": Dict{"Length": Integer(128), "CFM": Name("V2")},
+		}
 	} else if cipher == cipherRC4 && length == 40 && version >= V1_1 {
 		dict["V"] = Integer(1)
 	} else if cipher == cipherRC4 && version >= V1_4 {
